@@ -21,7 +21,8 @@ Definition old_code : code := {|
   k_ns_arg := k_ns_arg the_code; k_ns_decide := k_ns_decide the_code; k_sup_tpl := k_sup_tpl the_code;
   k_guard_type := k_guard_type the_code; k_guard_header := k_guard_header the_code; k_guard_copy := k_guard_copy the_code;
   k_types_all_when_ns := k_types_all_when_ns the_code;
-  k_fix_lookup := false; k_fix_nonj2 := false; k_fix_suptpl := false; k_path_pure := k_path_pure the_code; k_ns_check := k_ns_check the_code; k_fix_constref := false; k_stem_check := k_stem_check the_code |}.
+  k_fix_lookup := false; k_fix_nonj2 := false; k_fix_suptpl := false; k_path_pure := k_path_pure the_code; k_ns_check := k_ns_check the_code; k_fix_constref := false; k_stem_check := k_stem_check the_code;
+  k_fix_pyres := false; k_fix_linkdir := false |}.
 
 Definition old_listed (c : cfg) (i : inputs) : list (list (list N)) := snd (fst (run old_code (li_of c) i fs_empty)).
 
@@ -44,7 +45,7 @@ Print Assumptions C08_history_nonj2_was_refuted.
 
 (* F-LIST-INPUTS-SUPTPL (fixed): --support-templates DIR shadowed the packaged support template; the packaged one was listed *)
 Definition w_sup_dir : list tfile :=
-  [{| tf_name := [115]; tf_path := [[100]; [115]]; tf_j2 := true; tf_py := false; tf_cls := None; tf_refs := []; tf_dyn := false |}].
+  [{| tf_name := [115]; tf_path := [[100]; [115]]; tf_j2 := true; tf_py := false; tf_pkg := false; tf_linked := false; tf_cls := None; tf_refs := []; tf_dyn := false |}].
 Theorem C08_history_support_override_was_refuted :
   exists (c : cfg) (i : inputs) (x : list (list N)),
     trig_lookup i = false /\ trig_nonj2 old_code c i = false /\ trig_support_override old_code c = true
@@ -62,7 +63,8 @@ Definition code_before_constref : code := {|
   k_types_all_when_ns := k_types_all_when_ns the_code;
   k_fix_lookup := k_fix_lookup the_code; k_fix_nonj2 := k_fix_nonj2 the_code; k_fix_suptpl := k_fix_suptpl the_code;
   k_path_pure := k_path_pure the_code; k_ns_check := k_ns_check the_code; k_fix_constref := false;
-  k_stem_check := k_stem_check the_code |}.
+  k_stem_check := k_stem_check the_code;
+  k_fix_pyres := false; k_fix_linkdir := false |}.
 Theorem C08_history_constref_was_refuted :
   exists (c : cfg) (i : inputs) (x : list (list N)),
     trig_constref i = true /\ trig_lookup i = false
